@@ -201,6 +201,69 @@ func runC02(c *Ctx) {
 
 	c.Rule("C02-D4", "no goroutine hop on the receive path: no `go` statement lies on a call path from onEIOPacket (server/client) to (*eventHandler).call — handler entry order equals arrival order", 2)
 	goHops(c, "C02-D4")
+
+	c.Rule("C02-D6", "transports hand packets over synchronously and in arrival order: every Callbacks.OnPacket call of the transports and of the Engine.IO sockets is a plain call on the transport's own reading goroutine "+
+		"(not `go`, not deferred, not inside a closure started with `go`), the Engine.IO layer forwards to the Socket.IO callbacks the same way, and the polling server answers a POST only after OnPacket returned "+
+		"(the next POST of the same client is sent after that answer: answering first lets two payloads be processed concurrently)", 9)
+	{
+		n := 0
+		isOnPacket := func(in ssa.Instruction) bool {
+			ci, ok := in.(ssa.CallInstruction)
+			if !ok {
+				return false
+			}
+			name := calleeName(ci.Common())
+			return name == "(*transport.Callbacks).OnPacket" || strings.HasSuffix(name, ".OnPacket") && strings.HasPrefix(name, "dyn:") && strings.Contains(name, "allbacks")
+		}
+		for _, fn := range pkgFuncs(p, map[string]bool{"polling": true, "websocket": true, "webtransport": true, "eio": true}) {
+			for _, in := range findInstrs(fn, isOnPacket) {
+				n++
+				_, isCall := in.(*ssa.Call)
+				c.Ob("C02-D6", FuncName(fn)+"/OnPacket-synchronous", in.Pos(), isCall, "received packets are handed to OnPacket through a `go` or `defer` statement: payloads of one peer are processed concurrently or late, frames and events can overtake each other")
+				// the enclosing closure chain is not started with `go`
+				for f := fn; f.Parent() != nil; f = f.Parent() {
+					started := false
+					for _, b := range f.Parent().Blocks {
+						for _, i2 := range b.Instrs {
+							if g, ok := i2.(*ssa.Go); ok {
+								if mc, ok := g.Call.Value.(*ssa.MakeClosure); ok && mc.Fn == ssa.Value(f) {
+									started = true
+								} else if fv, ok := g.Call.Value.(*ssa.Function); ok && fv == f {
+									started = true
+								}
+							}
+						}
+					}
+					c.Ob("C02-D6", FuncName(fn)+"/OnPacket-not-in-go-closure", in.Pos(), !started, "OnPacket is called from a closure that is started with `go` per batch of packets")
+				}
+			}
+		}
+		if n < 8 {
+			anchorFail("C02-D6: found %d Callbacks.OnPacket call sites in the transports and Engine.IO sockets, expected at least 8", n)
+		}
+		// polling server: the POST is answered after OnPacket returned
+		hd := p.Fn("polling", "ServerTransport.handleDataRequest")
+		ons := findInstrs(hd, isOnPacket)
+		isOK := func(in ssa.Instruction) bool {
+			call, ok := in.(*ssa.Call)
+			if !ok || !call.Call.IsInvoke() {
+				return false
+			}
+			switch call.Call.Method.Name() {
+			case "WriteHeader":
+				k, isK := call.Call.Args[0].(*ssa.Const)
+				return isK && k.Value != nil && k.Int64() == 200
+			}
+			return false
+		}
+		if len(ons) != 1 {
+			c.Ob("C02-D6", "polling.ServerTransport.handleDataRequest/answers-after-OnPacket", hd.Pos(), false, fmt.Sprintf("expected one OnPacket call in the POST handler, found %d", len(ons)))
+		} else {
+			early, trail := CanReachAvoiding(hd, nil, isOK, func(in ssa.Instruction) bool { return in == ons[0] })
+			nOK := len(findInstrs(hd, isOK))
+			c.Ob("C02-D6", "polling.ServerTransport.handleDataRequest/answers-after-OnPacket", ons[0].Pos(), !early && nOK >= 1, fmt.Sprintf("the POST can be answered 200 before OnPacket ran (%d success replies found): %s", nOK, trailString(p, trail)))
+		}
+	}
 }
 
 // sendArgAllowed classifies the variadic argument of an engine.io Send.
